@@ -52,7 +52,7 @@ REQUIRED = ["ops_executed", "rechecks", "handle_reads", "node_writes", "detach_n
             "views_built_by_caller", "views_built_from_a_range", "pid_writes_on_tree_copies",
             "long_views_over_unordered_rows", "views_walked_while_editing",
             "views_compared_under_custom_column_names", "big_tree_relations_checked",
-            "node_rows_formatted"]
+            "node_rows_formatted", "segment_lists_edited_then_asked_again"]
 FLOOR = {"quick": 250, "thorough": 5000}
 SHARDS = {"quick": 8, "thorough": 16}
 
@@ -389,6 +389,18 @@ def _run_history(ctx, case):
                       f"branch {L[:6]} has {len(segs)} segments for {len(L)} nodes")
                 for j, s in enumerate(segs):
                     W.view_check("compartment", s, [L[j], L[j + 1]])
+                if len(segs) >= 2:
+                    # the list handed out belongs to the caller: edited in place, asked for again
+                    first_pairs = [tuple(int(q) for q in s_.origin_id()) for s_ in segs]
+                    segs.reverse()
+                    segs.pop()
+                    again_ = [tuple(int(q) for q in s_.origin_id()) for s_ in obj.get_segments()]
+                    ctx.count("segment_lists_edited_then_asked_again")
+                    _need(again_ == first_pairs, "branch-segments",
+                          f"branch {L[:6]}: after the caller reversed / shortened the list "
+                          f"get_segments() had returned, it returns {again_[:4]} instead of "
+                          f"{first_pairs[:4]}")
+                    segs = obj.get_segments()
                 if len(segs):
                     _need(_eq(segs.id(), np.array([[L[j], L[j + 1]] for j in range(len(L) - 1)]))
                           and _eq(segs.x(), np.array([[W.cols["x"][L[j]], W.cols["x"][L[j + 1]]]
